@@ -1,3 +1,4 @@
+mod c03;
 mod c18;
 mod core;
 mod rng;
@@ -15,6 +16,7 @@ fn usage() -> ! {
 macro_rules! dispatch {
     ($id:expr, $f:ident, $($arg:expr),*) => {
         match $id {
+            "C03" => $f(&c03::C03, $($arg),*),
             "C18" => $f(&c18::C18, $($arg),*),
             other => {
                 eprintln!("HARNESS-ERROR: unknown property {other}");
@@ -43,7 +45,7 @@ fn main() {
     let mut verif_dir = PathBuf::from(std::env::var("VERIF_DIR").unwrap_or_else(|_| "/verif".into()));
     match args[1].as_str() {
         "list" => {
-            println!("C18");
+            println!("C03\nC18");
         }
         "run" => {
             if args.len() < 3 {
